@@ -31,7 +31,7 @@ func (s sortAttributes) Less(i, j int) bool {
 		}
 	}
 
-	return false
+	return s[i].Name < s[j].Name
 }
 
 func (s sortAttributes) Swap(i, j int) { s[i], s[j] = s[j], s[i] }
@@ -42,9 +42,17 @@ func SortValues(values []*Value) {
 
 type sortValues []*Value
 
-func (s sortValues) Len() int           { return len(s) }
-func (s sortValues) Less(i, j int) bool { return s[i].Number < s[j].Number }
-func (s sortValues) Swap(i, j int)      { s[i], s[j] = s[j], s[i] }
+func (s sortValues) Len() int { return len(s) }
+func (s sortValues) Less(i, j int) bool {
+	if s[i].Number != s[j].Number {
+		return s[i].Number < s[j].Number
+	}
+	if s[i].Attribute != s[j].Attribute {
+		return s[i].Attribute < s[j].Attribute
+	}
+	return s[i].Name < s[j].Name
+}
+func (s sortValues) Swap(i, j int) { s[i], s[j] = s[j], s[i] }
 
 func SortVendors(vendors []*Vendor) {
 	sort.Stable(sortVendors(vendors))
@@ -52,6 +60,11 @@ func SortVendors(vendors []*Vendor) {
 
 type sortVendors []*Vendor
 
-func (s sortVendors) Len() int           { return len(s) }
-func (s sortVendors) Less(i, j int) bool { return s[i].Number < s[j].Number }
-func (s sortVendors) Swap(i, j int)      { s[i], s[j] = s[j], s[i] }
+func (s sortVendors) Len() int { return len(s) }
+func (s sortVendors) Less(i, j int) bool {
+	if s[i].Number != s[j].Number {
+		return s[i].Number < s[j].Number
+	}
+	return s[i].Name < s[j].Name
+}
+func (s sortVendors) Swap(i, j int) { s[i], s[j] = s[j], s[i] }
